@@ -136,6 +136,10 @@ def not_internal(I, value):
     object() created by the generated module) nor to the verifier's UNBOUND token"""
     I.assume(value != Val.obj(z3.IntVal(conc_oid(K3State.MARKER))))
     I.assume(value != Val.obj(z3.IntVal(conc_oid(UNBOUND_OBJ))))
+    cm = I.env.get('_CANCEL_MARKER') if hasattr(I, 'env') else None
+    if isinstance(cm, VConc):
+        # the switch-cancellation marker is private to chameleon.zpt.program
+        I.assume(value != Val.obj(z3.IntVal(conc_oid(cm.obj))))
 
 
 def scope_visible(sc, key):
@@ -1050,6 +1054,14 @@ def schema_contracts(specs):
                               'compilation raises %s' % s['expect_error']['class'],
                               {'template': s['text'], 'options': s.get('options', {}),
                                'observed': 'compiled without error'})]})
+            out.append(c)
+            continue
+        if s.get('static_only'):
+            c = Contract('k3::%s' % s['id'], params={}, source=('def schema():\n    pass\n', 'schema'),
+                         kind='K3', serves=s.get('serves', []),
+                         ghost={'template': s['text'], 'k3_static_only': True, 'static_checks': [
+                             ('%s.compiles' % s['id'], True, 'the schema template compiles',
+                              {'template': s['text']})]})
             out.append(c)
             continue
         em = Emitted(r['source'], s.get('fname', 'render'))
